@@ -97,6 +97,12 @@ css box(w string) {
 	width: { w };
 }
 
+css grid() {
+	grid-template-areas: "head  head" "nav   main";
+	content: "\201C  \201D";
+	font-family: "A  B",	serif;
+}
+
 script hello(name string) {
 	console.log(name);
 }
@@ -166,6 +172,12 @@ func (g *tgen) attr(el string, ind int) string {
 		return g.r.pick([]string{"hidden", "disabled", "data-flag", "required"})
 	case k < 6:
 		g.note("attr-expr")
+		if !g.plain && !g.oracle && g.r.chance(1, 8) {
+			// multi-line expression with a raw string / block comment that spans lines
+			g.note("attr-expr-multiline")
+			return g.r.pick([]string{"data-m={\n" + g.indent(ind+2) + "`a\nb`,\n" + g.indent(ind+1) + "}", "data-m={\n" + g.indent(ind+2) + "s, /* c1\n c2 */\n" + g.indent(ind+1) + "}",
+				"data-m={\n" + g.indent(ind+2) + "s,\n" + g.indent(ind+2) + "t,\n" + g.indent(ind+1) + "}"})
+		}
 		return fmt.Sprintf("%s={ %s }", g.r.pick([]string{"title", "data-v", "alt", "value", "placeholder"}), g.pickStr())
 	case k == 6:
 		g.note("attr-boolexpr")
@@ -456,7 +468,7 @@ func (g *tgen) node(ind int) (string, bool) {
 			return "@hello(s)", true
 		case 4:
 			g.note("call-legacy")
-			return "{! leaf(s) }", true
+			return g.r.pick([]string{"{! leaf(s) }", "{! leaf( s ) }", "{! leaf(s+t) }"}), true
 		default:
 			g.note("call-block-inline")
 			return "@wrap(t) {\n" + g.indent(ind+1) + g.text() + "\n" + g.indent(ind) + "}", true
@@ -497,7 +509,7 @@ func (g *tgen) file() string {
 	var sb strings.Builder
 	sb.WriteString(tgenPrelude)
 	if g.r.chance(1, 6) {
-		sb.WriteString("// top-level Go between templates\nvar topLevel = \"x\"\n\n")
+		sb.WriteString("// top-level Go between templates\nvar topLevel = \"x\"\n" + g.r.pick([]string{"", "\t// indented trailing comment\n", "// trailing comment\n", "  /* block */\n"}) + "\n")
 	}
 	n := 1 + g.r.intn(2)
 	for i := 0; i < n; i++ {
